@@ -249,6 +249,24 @@ def build(plan: dict, casedir: str, names: dict) -> Built:
         node = ir.Node("", "Constant", [], attributes=[ir.AttrFloat32("value_float", 1.0)], outputs=[o], name=gname + "_c")
         return ir.Graph(inputs=[], outputs=[o], nodes=[node, *extra_nodes], initializers=vals, name=gname)
 
+    # sibling scopes may repeat a name: the first initializer of the else / deep body takes the name of the first one
+    # of the then body (raw backend only: safetensors entries are keyed by name)
+    place = plan["place"]
+    if plan["c"]["be"] == "raw" and plan["vseed"] % 3 == 0 and "then" in place:
+        i_then = place.index("then")
+        for other in ("else", "deep"):
+            if other in place:
+                j = place.index(other)
+                if out.desc[j]["kind"].split(":")[0] in ("dup",) or out.desc[i_then]["kind"].split(":")[0] in ("dup",):
+                    continue
+                if any(dd.get("dup_of") in (i_then, j) for dd in out.desc):
+                    continue
+                try:
+                    out.objs[j].name = out.desc[i_then]["name"]
+                except Exception:  # noqa: BLE001 - a tensor kind whose name cannot be set
+                    continue
+                out.values[j].name = out.desc[i_then]["name"]
+                out.desc[j]["name"] = out.desc[i_then]["name"]
     by = {"main": [], "then": [], "else": [], "deep": []}
     for i in range(n):
         by[plan["place"][i]].append(out.values[i])
@@ -268,6 +286,21 @@ def build(plan: dict, casedir: str, names: dict) -> Built:
                  opset_imports={"": 20})
     out.model = ir.Model(g, ir_version=10)
     return out
+
+
+class _ByPos(dict):
+    """Initializers of a loaded model: by position in traversal order when the count matches the descriptions (names may
+    repeat in sibling scopes), else by name."""
+
+    def __init__(self, model, desc):
+        super().__init__()
+        seq = [v for g in model.graphs() for v in g.initializers.values()]
+        self.pos = seq if len(seq) == len(desc) and [v.name for v in seq] == [d["name"] for d in desc] else None
+        for v in seq:
+            self.setdefault(v.name, v)
+
+    def of(self, i, d):
+        return self.pos[i] if self.pos is not None else self.get(d["name"])
 
 
 def _innermost(exc: BaseException) -> str:
@@ -351,18 +384,15 @@ def _observe(ir, obs: dict, info: dict, model_path: str, desc: list, be: str, be
     base_dir = os.path.dirname(model_path)
     try:
         lm = ir.load(model_path)
-        loaded = {}
-        for g in lm.graphs():
-            for nm, v in g.initializers.items():
-                loaded[nm] = v
+        loaded = _ByPos(lm, desc)
     except Exception as e:  # noqa: BLE001
         obs["loaded"] = False
         info["lexc"] = _innermost(e)
         return
     after = _snapshot(base_dir)
     referenced = set()
-    for d in desc:
-        lv = loaded.get(d["name"])
+    for i0, d in enumerate(desc):
+        lv = loaded.of(i0, d)
         lt = lv.const_value if lv is not None else None
         if isinstance(lt, ir.ExternalTensor):
             referenced.add(str(lt.location).replace(os.sep, "/"))
@@ -392,7 +422,7 @@ def _observe(ir, obs: dict, info: dict, model_path: str, desc: list, be: str, be
 
     for i in range(n):
         d = desc[i]
-        lv = loaded.get(d["name"])
+        lv = loaded.of(i, d)
         lt = lv.const_value if lv is not None else None
         if lt is None:
             obs["t"].append({"loc": "", "o": 0, "l": 0})
@@ -515,11 +545,8 @@ def _run_chain(ir, plan: dict, bm: Built, casedir: str, names: dict) -> list:
         res.append((obs, info))
         try:
             m = ir.load(prev_model)
-            vals = {}
-            for g in m.graphs():
-                for nm, v in g.initializers.items():
-                    vals[nm] = v
-            held = [vals[d["name"]] for d in bm.desc]
+            vals = _ByPos(m, bm.desc)
+            held = [vals.of(i0, d) for i0, d in enumerate(bm.desc)]
             objs = [v.const_value for v in held]
         except Exception as e:  # noqa: BLE001
             obs["loaded"] = False
